@@ -251,6 +251,7 @@ class Builder:
             data = b"".join(slots)
             if is_root and self.bits != 32:
                 assert len(data) <= self.root_entries * 32, "root too small"
+                self.root_used_slots = len(data) // 32
                 self.put(self.root_off, data)
             else:
                 chain = d.chain
